@@ -38,7 +38,7 @@ func init() {
 				return 200
 			}
 			if tier == "thorough" {
-				return 6000
+				return 40000
 			}
 			return 300
 		},
